@@ -1252,6 +1252,20 @@ func (fr *FnRun) havocLoopWrites(st *State, li *loopInfo, spec *LoopSpec) {
 		for _, m := range spec.Modifies {
 			fr.havocLoc(st, m, env)
 		}
+		// local variables of this function that live in a cell declared BEFORE the loop and are stored
+		// to, or handed to a call, inside the loop: the loop may change them, so they are havocked at
+		// the head as well (the modifies clause cannot name them - they are not part of the caller's
+		// state; hoisting a loop-local variable out of the loop is thereby analysed, not rejected)
+		for _, al := range fr.loopWrittenLocalCells(li) {
+			if pv, ok := st.vals[al].(*PtrV); ok && pv.Obj != nil {
+				if now, had := st.heap[pv.Obj]; had {
+					if before, hadBefore := pre.heap[pv.Obj]; hadBefore && before != now {
+						continue // the modifies clause already names (part of) this cell: it is precise
+					}
+				}
+				fr.havocAt(st, &PtrV{Nil: tFalse, Obj: pv.Obj, Elem: al.Type().(*types.Pointer).Elem()})
+			}
+		}
 		// frame guard: inside the loop only the havocked objects (and objects created by the havoc or later) may be written
 		g := &loopGuard{maxID: idBefore, ok: map[*Obj]bool{}, li: li}
 		for o, v := range st.heap {
@@ -1287,6 +1301,52 @@ func (fr *FnRun) havocLoopWrites(st *State, li *loopInfo, spec *LoopSpec) {
 			}
 		}
 	}
+}
+
+// loopWrittenLocalCells: Allocs of this function declared outside the loop whose address (or the
+// address of a part of them) is the target of a Store or an argument of a call inside the loop.
+func (fr *FnRun) loopWrittenLocalCells(li *loopInfo) []*ssa.Alloc {
+	seen := map[*ssa.Alloc]bool{}
+	var out []*ssa.Alloc
+	var rootOf func(v ssa.Value) *ssa.Alloc
+	rootOf = func(v ssa.Value) *ssa.Alloc {
+		switch a := v.(type) {
+		case *ssa.Alloc:
+			return a
+		case *ssa.FieldAddr:
+			return rootOf(a.X)
+		case *ssa.IndexAddr:
+			return rootOf(a.X)
+		}
+		return nil
+	}
+	add := func(v ssa.Value) {
+		if a := rootOf(v); a != nil && a.Parent() == fr.fn && !li.blocks[a.Block()] && !seen[a] {
+			seen[a] = true
+			out = append(out, a)
+		}
+	}
+	var blocks []*ssa.BasicBlock
+	for b := range li.blocks {
+		blocks = append(blocks, b)
+	}
+	sort.Slice(blocks, func(i, j int) bool { return blocks[i].Index < blocks[j].Index })
+	for _, b := range blocks {
+		for _, in := range b.Instrs {
+			switch x := in.(type) {
+			case *ssa.Store:
+				add(x.Addr)
+			case ssa.CallInstruction:
+				for _, a := range x.Common().Args {
+					add(a)
+				}
+				if !x.Common().IsInvoke() {
+					add(x.Common().Value)
+				}
+			}
+		}
+	}
+	return out
 }
 
 func (fr *FnRun) tryValue(st *State, v ssa.Value) (res Val) {
